@@ -4,6 +4,8 @@ import (
 	"context"
 	"fmt"
 	"net/http"
+	"strconv"
+	"strings"
 	"time"
 
 	"github.com/thushan/olla/internal/adapter/converter"
@@ -17,12 +19,15 @@ import (
 	"github.com/thushan/olla/internal/core/ports"
 	"github.com/thushan/olla/internal/logger"
 	"github.com/thushan/olla/internal/router"
+	"github.com/thushan/olla/internal/util"
 )
 
 // SecurityAdapters provides middleware for security chain
 type SecurityAdapters struct {
 	securityChain *ports.SecurityChain
 	logger        logger.StyledLogger
+	rateLimits    config.ServerRateLimits // how the client is identified (proxy header trust)
+	maxBodySize   int64                   // cap for bodies whose length is not declared up front
 }
 
 // CreateChainMiddleware creates middleware that applies the full security chain with enhanced logging
@@ -35,8 +40,11 @@ func (s *SecurityAdapters) CreateChainMiddleware() func(http.Handler) http.Handl
 		return http.HandlerFunc(func(w http.ResponseWriter, r *http.Request) {
 			if s.securityChain != nil {
 				// Create security request from HTTP request
+				// Limits are per client IP: keying on RemoteAddr (ip:port) would hand every
+				// new TCP connection a fresh bucket.
+				clientIP := util.GetClientIP(r, s.rateLimits.TrustProxyHeaders, s.rateLimits.TrustedProxyCIDRsParsed)
 				secReq := ports.SecurityRequest{
-					ClientID:      r.RemoteAddr, // This would normally be extracted better
+					ClientID:      clientIP,
 					Endpoint:      r.URL.Path,
 					Method:        r.Method,
 					BodySize:      r.ContentLength,
@@ -47,13 +55,35 @@ func (s *SecurityAdapters) CreateChainMiddleware() func(http.Handler) http.Handl
 
 				result, err := s.securityChain.Validate(r.Context(), secReq)
 				if err != nil || !result.Allowed {
-					// Write appropriate error response
-					http.Error(w, "Security validation failed", http.StatusForbidden)
+					writeSecurityRejection(w, result)
 					return
+				}
+
+				// A chunked body has no declared length to validate up front: stop reading
+				// (and refuse the request) once it grows past the limit.
+				if s.maxBodySize > 0 && r.Body != nil && r.ContentLength < 0 {
+					r.Body = http.MaxBytesReader(w, r.Body, s.maxBodySize)
 				}
 			}
 			withAccessLogging.ServeHTTP(w, r)
 		})
+	}
+}
+
+// writeSecurityRejection answers a refused request with the status that matches the reason
+func writeSecurityRejection(w http.ResponseWriter, result ports.SecurityResult) {
+	switch {
+	case strings.Contains(result.Reason, "Rate limit"):
+		if result.RetryAfter > 0 {
+			w.Header().Set("Retry-After", strconv.Itoa(result.RetryAfter))
+		}
+		http.Error(w, "Too Many Requests", http.StatusTooManyRequests)
+	case strings.Contains(result.Reason, "body too large"):
+		http.Error(w, "Request body too large", http.StatusRequestEntityTooLarge)
+	case strings.Contains(result.Reason, "headers too large"):
+		http.Error(w, "Request headers too large", http.StatusRequestHeaderFieldsTooLarge)
+	default:
+		http.Error(w, "Security validation failed", http.StatusForbidden)
 	}
 }
 
@@ -127,6 +157,8 @@ func NewApplication(
 	securityAdapters := &SecurityAdapters{
 		securityChain: securityChain,
 		logger:        logger,
+		rateLimits:    cfg.Server.RateLimits,
+		maxBodySize:   cfg.Server.RequestLimits.MaxBodySize,
 	}
 
 	// Create route registry
